@@ -15,7 +15,8 @@ func (f *Formatter) formatAclDeclaration(decl *ast.AclDeclaration) *Declaration 
 	lines := DeclarationPropertyLines{}
 
 	for _, cidr := range decl.CIDRs {
-		if cidr.GetMeta().PreviousEmptyLines > 0 {
+		leading, separated := f.formatPropertyLeading(cidr.GetMeta(), 1)
+		if separated {
 			group.Lines = append(group.Lines, lines)
 			lines = DeclarationPropertyLines{}
 		}
@@ -37,7 +38,7 @@ func (f *Formatter) formatAclDeclaration(decl *ast.AclDeclaration) *Declaration 
 			buf.WriteString(" " + v)
 		}
 		lines = append(lines, &DeclarationPropertyLine{
-			Leading:      f.formatComment(cidr.Leading, "\n", 1),
+			Leading:      leading,
 			Trailing:     f.trailing(cidr.Trailing),
 			Key:          buf.String(),
 			EndCharacter: ";",
@@ -92,13 +93,28 @@ func (f *Formatter) formatBackendDeclaration(decl *ast.BackendDeclaration) *Decl
 	}
 }
 
+// formatPropertyLeading formats the leading comments of a declaration property and reports
+// whether the property starts a new group, i.e. an empty line precedes the property or its comments.
+// The empty line in front of the first comment is printed as the separator of the groups,
+// otherwise the groups (and the empty lines) would differ when the output is formatted again.
+func (f *Formatter) formatPropertyLeading(meta *ast.Meta, nestLevel int) (string, bool) {
+	leading := f.formatComment(meta.Leading, "\n", nestLevel)
+	separated := meta.PreviousEmptyLines > 0
+	if len(meta.Leading) > 0 && meta.Leading[0].PreviousEmptyLines > 0 {
+		leading = strings.TrimPrefix(leading, "\n")
+		separated = true
+	}
+	return leading, separated
+}
+
 // Format backend properties with align property names, trailing comment if needed
 func (f *Formatter) formatBackendProperties(props []*ast.BackendProperty, nestLevel int) string {
 	group := &GroupedLines{}
 	lines := DeclarationPropertyLines{}
 
 	for _, prop := range props {
-		if prop.GetMeta().PreviousEmptyLines > 0 {
+		leading, separated := f.formatPropertyLeading(prop.GetMeta(), nestLevel)
+		if separated {
 			if f.conf.AlignDeclarationProperty {
 				lines.AlignKey()
 			}
@@ -110,7 +126,7 @@ func (f *Formatter) formatBackendProperties(props []*ast.BackendProperty, nestLe
 		}
 
 		line := &DeclarationPropertyLine{
-			Leading:  f.formatComment(prop.Leading, "\n", nestLevel),
+			Leading:  leading,
 			Trailing: f.trailing(prop.Trailing),
 			Key:      f.indent(nestLevel) + "." + prop.Key.String(),
 			Operator: " = ",
@@ -161,7 +177,8 @@ func (f *Formatter) formatDirectorDeclaration(decl *ast.DirectorDeclaration) *De
 	lines := DeclarationPropertyLines{}
 
 	for _, prop := range decl.Properties {
-		if prop.GetMeta().PreviousEmptyLines > 0 {
+		leading, separated := f.formatPropertyLeading(prop.GetMeta(), 1)
+		if separated {
 			if f.conf.AlignDeclarationProperty {
 				lines.AlignKey()
 			}
@@ -172,7 +189,7 @@ func (f *Formatter) formatDirectorDeclaration(decl *ast.DirectorDeclaration) *De
 			lines = DeclarationPropertyLines{}
 		}
 		line := &DeclarationPropertyLine{
-			Leading:  f.formatComment(prop.GetMeta().Leading, "\n", 1),
+			Leading:  leading,
 			Trailing: f.trailing(prop.GetMeta().Trailing),
 			Key:      f.indent(1),
 		}
@@ -268,7 +285,8 @@ func (f *Formatter) formatTableProperties(props []*ast.TableProperty) string {
 	lines := DeclarationPropertyLines{}
 
 	for _, prop := range props {
-		if prop.PreviousEmptyLines > 0 {
+		leading, separated := f.formatPropertyLeading(prop.Meta, 1)
+		if separated {
 			if f.conf.AlignDeclarationProperty {
 				lines.AlignKey()
 			}
@@ -279,7 +297,7 @@ func (f *Formatter) formatTableProperties(props []*ast.TableProperty) string {
 			lines = DeclarationPropertyLines{}
 		}
 		line := &DeclarationPropertyLine{
-			Leading:      f.formatComment(prop.Leading, "\n", 1),
+			Leading:      leading,
 			Trailing:     f.trailing(prop.Trailing),
 			Operator:     ": ",
 			Key:          f.indent(1) + f.formatTableKey(prop.Key),
